@@ -77,8 +77,8 @@ def translators(prop):
     return ok, log
 
 
-ALL_TRANSLATORS = ["tr_rules", "tr_prec"]
-TRANSLATORS_FOR: dict[str, list[str]] = {"C19": ["tr_rules"], "C16": ["tr_prec"]}
+ALL_TRANSLATORS = ["tr_rules", "tr_prec", "tr_smart"]
+TRANSLATORS_FOR: dict[str, list[str]] = {"C19": ["tr_rules"], "C16": ["tr_prec"], "C17": ["tr_smart"]}
 
 # what `make` must build for a property: only its own closure, so that a broken
 # obligation of one property never raises an alarm for another
@@ -86,6 +86,7 @@ KERNEL = ["theories/KernelProps.vo", "theories/Enc.vo", "theories/Num.vo"]
 PROP_TARGETS: dict[str, list[str]] = {
     "C03": KERNEL, "C05": KERNEL, "C07": KERNEL, "C08": KERNEL,
     "C19": KERNEL + ["theories/RuleIds.vo", "gen/Rules.vo"],
+    "C17": ["theories/Smart.vo", "theories/SmartQc.vo", "theories/Render.vo", "theories/Enc.vo", "theories/Num.vo"],
     "C16": ["theories/Fmt.vo", "theories/FmtSem.vo", "theories/Render.vo", "theories/Enc.vo"],
 }
 
